@@ -632,14 +632,16 @@ def run_verus_ob(build, ob):
                 ptext, prules = extract.assemble(build.repo, ob["spec"], probe=True)
                 nprobe = prules.get("_probes", 0)
                 if nprobe:
-                    pp = fp[:-3] + ".probe.rs"
+                    pp = fp[:-3] + "_probe.rs"
                     with open(pp, "w") as fh:
                         fh.write(ptext)
                     rc2, out2, dt2, to2 = run_cmd(["verus", pp, "--triggers-mode", "silent", "--multiple-errors", "200",
                                                    "--rlimit", str(ob.get("rlimit", 30))], vdir, build.env(), ob.get("timeout", 300))
                     nfail = len(re.findall(r"error: assertion failed", out2))
                     res["vacuity_probes"] = {"probes": nprobe, "failed_as_they_must": nfail}
-                    if nfail < nprobe:
+                    if "verification results" not in out2:
+                        res["vacuity_probes"]["error"] = "probe run produced no result: " + out2[-300:]
+                    elif nfail < nprobe:
                         res["status"], res["reason"] = "undecided", "vacuity guard: %d of %d precondition probes verified `false`" % (nprobe - nfail, nprobe)
             except Exception as e:  # noqa
                 res["vacuity_probes"] = {"error": str(e)}
